@@ -1172,7 +1172,7 @@ RULE = ("each evaluation = one call of findroot (12 solver names x regimes: near
 def run(rep, tier_, rng):
     load_known_b(rep); load_known_b4(rep)
     todo = generate_calls(rng, tier_)
-    budget = 120 if tier_ == "quick" else 1100
+    budget = 110 if tier_ == "quick" else 1000
     process(rep, todo, "C29_%s" % tier_, budget, RULE, tier_)
 
 
